@@ -226,3 +226,97 @@ Proof.
     pose proof (feasible_in m s _ Hf Hrow) as Hr. simpl in Hr. unfold row_ok, row_lhs in Hr. simpl in Hr.
     fold (lhs s (ones (xvars I bs w (b_rq b)))) in Hr. apply placed_le. unfold z in *. lia.
 Qed.
+
+(** ** the aggregate row over the zero-gap workers *)
+
+Definition zero_gap (I : inst) (w : worker) (h l : N) : bool :=
+  capable I w h && match gap I w h l with Ok g => g =? 0 | _ => false end.
+
+Definition zero_sum (I : inst) (bs : list batch) (s : sol) (h l : N) (ws : list worker) : Z :=
+  fold_right (fun w acc => ((if zero_gap I w h l then lhs s (ones (xvars I bs w l)) else 0) + acc)%Z) 0%Z ws.
+
+Lemma ones_app : forall a b, ones (a ++ b) = ones a ++ ones b.
+Proof. intros. unfold ones. apply map_app. Qed.
+
+Lemma blocker_items_zero : forall I bs (s : sol) b c h bsz hb ws zero its zero',
+  blocker_items I bs b c h bsz hb ws zero = Ok (its, zero') ->
+  lhs s (ones zero') = (lhs s (ones zero) + zero_sum I bs s h (b_rq b) ws)%Z.
+Proof.
+  intros I bs s b c h bsz hb. induction ws as [|w t IH]; intros zero its zero' H.
+  - simpl in H. inversion H; subst. simpl. lia.
+  - rewrite blocker_items_cons in H. cbn [zero_sum fold_right]. fold (zero_sum I bs s h (b_rq b) t).
+    unfold zero_gap. destruct (capable I w h); cbn [andb].
+    + destruct (gap I w h (b_rq b)) as [g| |]; cbn [bind] in H; try discriminate.
+      destruct (N.ltb_spec 0 g) as [Hpos|Hz].
+      * destruct (blocker_items I bs b c h bsz hb t zero) as [[its1 z1]| |] eqn:E; cbn [bind fst snd] in H; try discriminate.
+        inversion H; subst. rewrite (IH _ _ _ E). destruct (N.eqb_spec g 0); lia.
+      * rewrite (IH _ _ _ H). fold (xvars I bs w (b_rq b)). rewrite ones_app, lhs_app.
+        destruct (N.eqb_spec g 0); lia.
+    + rewrite (IH _ _ _ H). lia.
+Qed.
+
+Lemma cut_items_zero : forall I bs b c bl seen its seen' h sz,
+  cut_items I bs b c bl seen = Ok (its, seen') -> In (h, Some sz) bl -> count_vars I bs h <> [] ->
+  exists zero, (forall s : sol, lhs s (ones zero) = zero_sum I bs s h (b_rq b) (i_workers I))
+               /\ (zero = [] \/ In (IZeroB (b_rq b) h (c_size c) sz (b_size b) zero) its).
+Proof.
+  intros I bs b c. induction bl as [|[h0 bsz0] t IH]; intros seen its seen' h sz H Hin Hcv; [contradiction|].
+  simpl in H.
+  destruct (blocker_items I bs b c h0 bsz0 _ (i_workers I) []) as [[its1 zero]| |] eqn:E; simpl in H; try discriminate.
+  destruct Hin as [Heq|Hin].
+  - inversion Heq; subst. exists zero. split.
+    + intros s. rewrite (blocker_items_zero I bs s _ _ _ _ _ _ _ _ _ E). simpl. lia.
+    + destruct zero as [|v vs]; [left; reflexivity|right].
+      destruct (count_vars I bs h) eqn:Ecv; [congruence|].
+      destruct (cut_items I bs b c t seen) as [[its2 seen2]| |] eqn:E2; simpl in H; try discriminate.
+      inversion H; subst. apply in_or_app. right. left. reflexivity.
+  - set (zz := match zero with [] => _ | _ => _ end) in H. destruct zz as [zitem seen1].
+    destruct (cut_items I bs b c t seen1) as [[its2 seen2]| |] eqn:E2; simpl in H; try discriminate.
+    inversion H; subst. destruct (IH _ _ _ h sz E2 Hin Hcv) as (z0 & Hz & Hor). exists z0. split; [assumption|].
+    destruct Hor as [->|Hi]; [left; reflexivity|right]. apply in_or_app. right. apply in_or_app. right. assumption.
+Qed.
+
+Lemma cuts_items_zero : forall I bs b cs seen its c h sz,
+  cuts_items I bs b cs seen = Ok its -> In c cs -> In (h, Some sz) (c_blockers c) -> count_vars I bs h <> [] ->
+  exists zero, (forall s : sol, lhs s (ones zero) = zero_sum I bs s h (b_rq b) (i_workers I))
+               /\ (zero = [] \/ In (IZeroB (b_rq b) h (c_size c) sz (b_size b) zero) its).
+Proof.
+  intros I bs b. induction cs as [|c0 t IH]; intros seen its c h sz H Hc Hbl Hcv; [contradiction|].
+  simpl in H. destruct (cut_items I bs b c0 (c_blockers c0) seen) as [[its1 seen1]| |] eqn:E; simpl in H; try discriminate.
+  destruct (cuts_items I bs b t seen1) as [its2| |] eqn:E2; simpl in H; try discriminate.
+  inversion H; subst. destruct Hc as [->|Hc].
+  - destruct (cut_items_zero _ _ _ _ _ _ _ _ h sz E Hbl Hcv) as (z0 & Hz & Hor). exists z0. split; [assumption|].
+    destruct Hor as [->|Hi]; [left; reflexivity|right; apply in_or_app; left; assumption].
+  - destruct (IH _ _ c h sz E2 Hc Hbl Hcv) as (z0 & Hz & Hor). exists z0. split; [assumption|].
+    destruct Hor as [->|Hi]; [left; reflexivity|right; apply in_or_app; right; assumption].
+Qed.
+
+(** * C15: semantics of the cut rows (aggregate over the zero-gap workers, bounded blocker) *)
+Theorem cut_semantics_zero : forall I bs m s b c h sz,
+  milp_of I bs = Ok m -> feasible m s = true ->
+  In b bs -> count_vars I bs (b_rq b) <> [] -> In c (b_cuts b) -> In (h, Some sz) (c_blockers c) ->
+  blocker_open I bs s (h, Some sz) = true ->
+  (zero_sum I bs s h (b_rq b) (i_workers I) <= Z.of_N (c_size c))%Z.
+Proof.
+  intros I bs m s b c h sz Hm Hf Hb Hcv Hc Hbl Hopen.
+  destruct (milp_items I bs m Hm) as (its & Hits & Hemit).
+  unfold blocker_open in Hopen. simpl in Hopen.
+  assert (Hcvh : count_vars I bs h <> []) by (intros E0; rewrite E0 in Hopen; discriminate).
+  assert (Hlt : (count_of I bs s h < Z.of_N sz)%Z)
+    by (destruct (count_vars I bs h); [congruence|unfold z in Hopen; lia]).
+  (* locate the item *)
+  unfold all_items in Hits. destruct (collect_res (map (batch_items I bs) bs)) as [l| |] eqn:E; simpl in Hits; try discriminate.
+  inversion Hits; subst. destruct (collect_res_in _ _ _ b E Hb) as (bi & Hbi & Hin).
+  unfold batch_items in Hbi. destruct (count_vars I bs (b_rq b)) eqn:Ecvb; [congruence|].
+  destruct (cuts_items I bs b (b_cuts b) []) as [ci| |] eqn:E3; simpl in Hbi; try discriminate. inversion Hbi; subst.
+  destruct (cuts_items_zero _ _ _ _ _ _ c h sz E3 Hc Hbl Hcvh) as (zero & Hz & Hor).
+  rewrite <- Hz. destruct Hor as [->|Hi]; [simpl; lia|].
+  assert (Hitem : In (IZeroB (b_rq b) h (c_size c) sz (b_size b) zero) (concat l)).
+  { apply in_concat. eexists. split; [exact Hin|]. apply in_or_app. right. assumption. }
+  pose proof (Hemit _ (emit_row_in I bs _ [] _ Hitem)) as Hrow.
+  destruct (emit_blk_in I bs _ [] _ h sz Hitem eq_refl (fun x => x)) as [Hblk Hvar].
+  pose proof (blocker_forced I bs m s h sz Hf (Hemit _ Hblk) (Hemit _ Hvar) Hlt) as HB.
+  pose proof (feasible_in m s _ Hf Hrow) as Hr. simpl in Hr. unfold row_ok, row_lhs in Hr. simpl in Hr.
+  fold (lhs s (ones zero ++ [(VB h sz, z (b_size b))])) in Hr. rewrite lhs_app in Hr.
+  simpl in Hr. rewrite HB in Hr. unfold z in *. lia.
+Qed.
